@@ -230,21 +230,65 @@ func emptySliceValue(v ssa.Value) bool {
 // whether or not the posting has an amount (`assets:bank  = 100 EUR` is an amount-less posting with an assertion):
 // the read of `.BalanceAssertion` in the check is not control dependent on a nil test of `.Amount` or `.Cost`.
 func ruleAssertionIndependent(c *Ctx) {
-	f := c.P.SSAFunc("internal/analyzer", "checkUndeclaredCommodities")
+	// the check is found by its role (the function that builds the undeclared-commodity diagnostic), the region is
+	// that function, what it calls and the functions of its package that lead to it from the one handed the
+	// transaction
+	fd := undeclaredCommodityCheck(c.P)
+	var f *ssa.Function
+	if fd != nil {
+		f = c.P.ssaOf(fd)
+	}
 	if f == nil {
-		c.undecided("T9-INDEP", "analyzer", "undeclared-commodity check", token.NoPos, "function checkUndeclaredCommodities not found in package analyzer")
+		c.undecided("T9-INDEP", "analyzer", "undeclared-commodity check", token.NoPos, "the function that builds the undeclared-commodity diagnostic was not found in package analyzer")
 		return
 	}
 	n := 0
-	fns := []*ssa.Function{f}
-	for _, b := range f.Blocks {
-		for _, ins := range b.Instrs {
-			if call, ok := ins.(*ssa.Call); ok {
-				if cal := call.Call.StaticCallee(); cal != nil && inModule(cal) && cal.Blocks != nil {
-					fns = append(fns, cal)
+	cg := cgView{c}
+	inRegion := map[*ssa.Function]bool{}
+	var fns []*ssa.Function
+	var addWithCallees func(g *ssa.Function, depth int)
+	addWithCallees = func(g *ssa.Function, depth int) {
+		if g == nil || inRegion[g] || depth > 2 || g.Blocks == nil {
+			return
+		}
+		inRegion[g] = true
+		fns = append(fns, g)
+		for _, a := range g.AnonFuncs {
+			addWithCallees(a, depth)
+		}
+		for _, b := range g.Blocks {
+			for _, ins := range b.Instrs {
+				if call, ok := ins.(*ssa.Call); ok {
+					if cal := call.Call.StaticCallee(); cal != nil && inModule(cal) && cal.Pkg == f.Pkg {
+						addWithCallees(cal, depth+1)
+					}
 				}
 			}
 		}
+	}
+	addWithCallees(f, 0)
+	takesTx := func(g *ssa.Function) bool {
+		for _, p := range g.Params {
+			if typeHasSuffix(p.Type(), "ast.Transaction") {
+				return true
+			}
+		}
+		return false
+	}
+	for cur, depth := f, 0; !takesTx(cur) && depth < 3; depth++ {
+		sites := cg.callersOf(cur)
+		if len(sites) == 0 {
+			break
+		}
+		up := sites[0].Parent()
+		for up.Parent() != nil {
+			up = up.Parent()
+		}
+		if up.Pkg != f.Pkg {
+			break
+		}
+		addWithCallees(up, 1)
+		cur = up
 	}
 	for _, fn := range fns {
 		for _, b := range fn.Blocks {
